@@ -78,7 +78,7 @@ def run_topic_check(ctx, prop, *, kinds, want, given, maxseq, u1_quick, u1_thoro
     u1 = u1_thorough if thorough else u1_quick
     uu, ss, tt = (users, sess, topics) if "nusers" not in u1 else world.population(u1["nusers"], u1.get("sess_per_user", 1))
     cu1 = world.mc_consts(uu, ss, tt, world.DEV_INTENDED, u1["want"], u1["given"], u1.get("kinds", kinds), [prop],
-                          maxseq=u1.get("maxseq", maxseq), maxsubs=maxsubs, delranges=u1.get("delranges", delranges), maxdel=u1.get("maxdel", maxdel))
+                          maxseq=u1.get("maxseq", maxseq), maxsubs=u1.get("maxsubs", 3), delranges=u1.get("delranges", delranges), maxdel=u1.get("maxdel", maxdel))
     r1, mons, _ = world.model_check(ctx, "U1_" + prop, cu1, timeout=2400)
     if not r1.ok:
         raise vlib.Infra("U1: the as-intended model violates its own monitors (spec defect, not a verdict): %s %s" % (mons[:2], r1.error))
